@@ -134,7 +134,7 @@ def env_args(desc, env):
 @register
 class C16(Check):
     pid = "C16"
-    slices = ["der-values", "der-rejects-controls", "control-chain"]
+    slices = ["der-values", "der-rejects-controls", "control-chain", "der-of-signal-expressions"]
 
     def explanation(self):
         return ("theorems: the symbolic derivative evaluates to the forward-mode tangent (eval_der); the tangent is linear in its seed, so "
@@ -169,6 +169,92 @@ class C16(Check):
         self.values_slice()
         self.rejects_slice()
         self.chain_slice()
+        self.signal_slice()
+
+    def signal_slice(self):
+        """B-spline signals: der(e) and der(der(e)) of expressions of signals and time, sampled under SplineMethod, against the exact
+        first/second time derivative of e along the splines (2-jets of the expression over the exact spline derivatives)"""
+        import casadi as ca
+        rockit = B.import_rockit()
+        name = "der-of-signal-expressions"
+        n = 5 if self.tier == 'quick' else 50
+        for it in range(n):
+            rng = self.rng
+            t0 = Fr(rng.randint(-2, 3), 2)
+            T = Fr(rng.choice([2, 3, 5, 6]), 2)      # never 1: a lost factor T would be invisible
+            N = rng.randint(2, 4)
+            orders = [rng.randint(2, 3), rng.randint(2, 3)]
+            with B.quiet():
+                ocp = rockit.Ocp(t0=float(t0), T=float(T))
+                sp = ocp.parameter(grid='bspline', order=orders[0])
+                sv = ocp.variable(grid='bspline', order=orders[1])
+                pvals = [Fr(rng.randint(-8, 8), 4) for _ in range(N + orders[0])]
+                ocp.set_value(sp, ca.DM([[float(v) for v in pvals]]))
+                sigs = [sp, sv]
+                atoms = [('vs', 0), ('vs', 1), ('t',)]
+                e = rich_expr(rng, atoms, depth=2, must=[('vs', 0), ('vs', 1)])
+
+                def sym(kind, i):
+                    return ocp.t if kind == 't' else sigs[i]
+                ce = E.to_casadi(e, sym)
+                try:
+                    d1 = ocp.der(ce)
+                    d2 = ocp.der(d1)
+                except Exception as ex:
+                    self.slice_ok[name] = False
+                    self.violation("ocp.der of an expression of B-spline signals raised: %s" % str(ex)[:200], {"expr": e, "orders": orders}, {"kind": "signal-der-exception"})
+                    return
+                ocp.add_objective(ocp.sum(ca.sumsqr(sv) + ca.sumsqr(sp), include_last=True))
+                ocp.method(rockit.SplineMethod(N=N, grid=rockit.UniformGrid() if rng.random() < 0.5 else rockit.GeometricGrid(2)))
+                ocp.solver('ipopt', {'ipopt.print_level': 0, 'print_time': False, 'ipopt.max_iter': 0, 'ipopt.sb': 'yes'})
+                ocp._transcribed
+                opti = ocp._method.opti
+                r = 3
+                outs = [ca.vec(ca.MX(ocp.sample(sv, grid='control')[0]))]
+                for sg in sigs:
+                    outs.append(ca.vec(ca.MX(ocp.sample(sg, grid='gist')[1])))
+                for ex_ in (d1, d2):
+                    tr, vr = ocp.sample(ex_, grid='control', refine=r)
+                    outs += [ca.densify(ca.vec(ca.MX(tr))), ca.densify(ca.vec(ca.MX(vr)))]
+                W = Walker(ca.Function('s', [opti.x, opti.p], outs))
+                pcur = ca.DM(opti.debug.value(opti.p, opti.initial())).full().flatten().tolist() if opti.p.numel() else []
+            xv = [rnd(rng) for _ in range(opti.x.numel())]
+            try:
+                res = W([xv, [Fr(v) for v in pcur]])
+            except (ZeroDivisionError, OverflowError):
+                continue
+            tcv = [v[0] for v in res[0]]
+            coefs = [[v[0] for v in res[1]], [v[0] for v in res[2]]]
+            self.evaluations += 1
+            self.count("signal-expressions")
+            self.signatures.add("sigexpr-%s-%s-%d-%s" % (T, orders, N, E.to_tokens(e)))
+            tr = [v[0] for v in res[3]]
+            own = []
+            for k in range(N):
+                for jj in range(r):
+                    own.append(tcv[k] + (tcv[k + 1] - tcv[k]) * Fr(jj, r))
+            own.append(tcv[N])
+            for which, (ti, vi) in ((1, (3, 4)), (2, (5, 6))):
+                times = own        # the values belong to these times (that the returned time vector says so too is C17's business)
+                vals = res[vi]
+                for pi, x in enumerate(times[:-1]):     # the last point is evaluated from the left; interior points suffice
+                    try:
+                        env3 = {('t',): (x, Fr(1), Fr(0))}
+                        for si in range(2):
+                            d = orders[si]
+                            env3[('vs', si)] = (bs_eval(tcv, d, coefs[si], x), bs_piece_derivative(tcv, d, coefs[si], x, 1),
+                                                bs_piece_derivative(tcv, d, coefs[si], x, 2) / 2)
+                        jet = jet_eval(e, env3)
+                    except ZeroDivisionError:
+                        continue
+                    want = jet[1] if which == 1 else 2 * jet[2]
+                    got, mg = vals[pi]
+                    if not close(want, got, max(mg, 1.0) * (1.0 + abs(fl(want)))):
+                        self.slice_ok[name] = False
+                        self.violation("der applied %d time(s) to e = %s (B-spline signals of order %s, T=%s): sample at t=%s is %s, the %s time derivative of e along "
+                                       "the splines is %s" % (which, E.to_tokens(e), orders, T, float(x), float(got), "first" if which == 1 else "second", float(want)),
+                                       {"expr": e, "orders": orders, "T": T, "t0": t0, "N": N, "x": xv}, {"kind": "signal-der", "which": which})
+                        return
 
     # -- slice 1 ---------------------------------------------------------------------------------
     def der_atoms(self, desc):
@@ -2125,6 +2211,14 @@ class C17(Check):
                 if len(tr) != len(want_t):
                     self.slice_ok["signals-are-splines"] = False
                     self.violation("%s: sample(grid='control', refine=%d) has %d points, expected %d" % (label, r, len(tr), len(want_t)), {"info": info}, feats)
+                    return
+                badt = [i for i, (a, b_) in enumerate(zip(want_t, tr)) if not close(a, b_, 1.0 + abs(fl(a)))]
+                if badt:
+                    self.slice_ok["signals-are-splines"] = False
+                    self.violation("%s: the time vector of sample(grid='control', refine=%d) is not the control grid with every interval split in %d "
+                                   "(entry %d is %s, expected %s; control grid %s): values and times do not belong together"
+                                   % (label, r, r, badt[0], float(tr[badt[0]]), float(want_t[badt[0]]), [float(v) for v in tcv]),
+                                   {"info": info}, {"kind": "refined-time-vector", "grid": info["grid"]})
                     return
                 comp = [[cg[c_ * nd + a] for c_ in range(ncoef)] for a in range(nd)]   # column-major vec of an nd x ncoef matrix
                 vals[label] = (deg, nd, comp, want_t)
